@@ -21,7 +21,7 @@
 (*   Z4  a required header value that differs from the transaction's only by letter case   *)
 (*       (header NAMES are case-insensitive: that is decided)                              *)
 (*   Z5  a filter without method constraint facing a method outside the documented default *)
-(*       set GET POST PUT DELETE PATCH (Filter.GetSupportedMethods)                        *)
+(*       set (Filter.GetSupportedMethods: the nine standard HTTP methods)                  *)
 (* Everything else is decided; in particular extra or missing trailing segments against a  *)
 (* literal or parameter pattern are "no".                                                  *)
 (*                                                                                         *)
@@ -96,9 +96,10 @@ UrlV(p, u, Ps) ==
 -------------------------------------------------------------------------------
 (* the other constraints *)
 
-\* Z5: without a method constraint the documented reading of the filter is "the supported
-\* methods" GET POST PUT DELETE PATCH; whether such a filter also accepts HEAD, OPTIONS ... is open
-StandardMethods == {"GET", "POST", "PUT", "DELETE", "PATCH"}
+\* Z5: without a method constraint the documented reading of the filter is "the supported methods"
+\* (Filter.GetSupportedMethods: the nine standard methods the proxy registers); whether such a filter
+\* also accepts an extension method (PROPFIND ...) is open
+StandardMethods == {"GET", "POST", "PUT", "DELETE", "PATCH", "HEAD", "OPTIONS", "CONNECT", "TRACE"}
 MethodV(f, x) == IF f.m = {} THEN (IF x.method \in StandardMethods THEN Yes ELSE Either)
                  ELSE IF x.method \in f.m THEN Yes ELSE No
 
